@@ -448,6 +448,32 @@ def c05_codec(ctx):
     lib.assume_stage(ctx, "codec_laws_q7", "CodecLaws", dict(Q=7, P=29, GEN=16))
 
 
+# ------------------------------------------------------------------------ C13
+ALLB = '{"dkg1","dkg2","dkg3","commit","rdkg1","rdkg2","rdkg3","dealer_share","dealer_kp","commit2"}'
+
+
+def c13_slices(tier):
+    th = tier == "thorough"
+    sl = []
+    # every single crash point, none, and all of them; both encodings
+    crash = "{{b} : b \\in %s} \\cup {{}, %s}" % (ALLB, ALLB)
+    sl.append(dict(name="A_n3t2", module="C13", invariants=["InvEncodable", "InvCompletes", "Emit"], consts=consts(
+        11, Shape="<<3,2>>", Ids="{2,3,7}", Polys=fn({2: seq([3, 5]), 3: seq([1, 4]), 7: seq([6, 2])}),
+        RPolys=fn({2: seq([4]), 3: seq([9]), 7: seq([1])}), DCoeffs="<<8>>", KNonce="2", Crash=crash,
+        Forms='{"bin","json"}', Msg="<<104,105>>", DomH3="{2,5}" if th else "{2}", DomH1="{1,5}" if th else "{5}", DomH2="{3}",
+        DomHDKG="{4}", EMIT="TRUE")))
+    sl.append(dict(name="B_n3t3", module="C13", invariants=["InvEncodable", "InvCompletes", "Emit"], consts=consts(
+        11, Shape="<<3,3>>", Ids="{1,2,3}", Polys=fn({1: seq([3, 5, 1]), 2: seq([1, 4, 8]), 3: seq([6, 2, 2])}),
+        RPolys=fn({1: seq([4, 1]), 2: seq([9, 3]), 3: seq([1, 10])}), DCoeffs="<<5,8>>", KNonce="2",
+        Crash="{%s, {}}" % ALLB if not th else crash, Forms='{"bin","json"}', Msg="<<>>", DomH3="{2}", DomH1="{5}",
+        DomH2="{3}", DomHDKG="{4}", EMIT="TRUE")))
+    return sl
+
+
+# byte-equality of every later protocol output: every value the model predicts (it predicts the same values with
+# and without the crash) is in the projection
+C13_FATAL = {"*:*"}
+
 PROPS = {
     "C01": dict(slices=c01_slices, fatal=C01_FATAL, traces=True, level="model_checking",
                 rule="TLC enumerates every behaviour of the C01 schedule within each slice's constants; "
@@ -529,6 +555,13 @@ PROPS = {
                            "relies on constructed small/mixed-order points (ed25519 via curve25519-dalek's torsion table)",
                 assumptions=["TLC 1.8.0 and the CommunityModules", "the event generator harness/src/codec.rs",
                              "curve25519-dalek's EIGHT_TORSION table for constructing small/mixed-order points"]),
+    "C13": dict(slices=c13_slices, fatal=C13_FATAL, traces=True, trace_opts=dict(paired_reload=True), level="model_checking",
+                rule="DKG -> signing -> distributed refresh -> dealer refresh -> signing with save/restore (binary, JSON) of the acting "
+                     "participant's secret state at each single round boundary, at none and at all of them; the model's expected "
+                     "outputs are identical in all variants and every value is compared; real suites: paired runs with and without "
+                     "the crash under one seed must agree on every output",
+                assumptions=["TLC 1.8.0 and the CommunityModules", "the toy ciphersuite and interpreter in /verif/harness",
+                             "the toy-to-real argument of DESIGN 6.2"]),
     "C04": dict(slices=c04_slices, fatal=C04_FATAL, level="model_checking", traces=True,
                 rule="TLC enumerates every filling of the share slots (honest / off by d / negated / zero / another "
                      "signer's / another session's share) for every signer subset within the slice constants and runs "
